@@ -30,7 +30,9 @@ W(fam, n) ==
     [] fam = "fp.Compose" -> Iota(1, n) \o <<n + 1>>            \* f1 ; f2 ; .. ; fn in this order, each incrementing the tag
     [] fam = "fp.Id" -> <<n>>                                   \* IdN returns its last argument
     [] fam = "eq.Tuple" -> LET F(i) == <<i, i, 100 + i>> IN Flat(F, n)        \* instance i compares (a.Ii, b.Ii), in that order
-    [] fam = "ord.Tuple" -> LET F(i) == <<1, 0>> IN Flat(F, n)                \* differing at position i only: a < b and not b < a
+    \* pairs differing at position i only: a < b and not b < a; then pairs where position i is greater and position i+1
+    \* smaller than in the base tuple: position i decides (not less / less)
+    [] fam = "ord.Tuple" -> LET F(i) == <<1, 0>>  G(i) == <<0, 1>> IN Flat(F, n) \o Flat(G, n - 1)
     [] fam = "monoid.Tuple" -> [i \in 1..n |-> i * 1000 + 100 + i]             \* instance i combines (a.Ii, b.Ii), in that order
     [] fam = "clone.Tuple" -> [i \in 1..n |-> i + 500]
 Calls(fam, n) ==
